@@ -20,7 +20,7 @@ from PyMatterSim.reader.lammps_reader_helper import read_lammps_wrapper
 from PyMatterSim.reader.reader_utils import DumpFileType
 
 RULE = ("frame records -> LAMMPS dump text by an independent encoder; axes: ndim x style {x,xs,xu} x cell {ortho,tri "
-        "with tilts of either sign} x N 1..12 x frames 1..4 x id permutation x types 1..9 x 0..3 trailing columns x "
+        "with tilts of either sign} x N 0..12 x frames 1..4 x id permutation x types 1..9 x 0..3 trailing columns x "
         "boundary flags x number formats x origins x timesteps. non-trivial = atoms not in id order, or origin != 0, "
         "or a tilt != 0, or style != x, or >= 2 frames")
 ASSUMPTIONS = ["well-formed files only: header at column 0, ids are a permutation of 1..N, scaled coordinates in [0,1)",
@@ -35,7 +35,8 @@ EXTRA_NAMES = ["vx", "vy", "vz", "c_pe", "q", "ix", "iy", "radius", "fx", "v_myv
 @st.composite
 def frame_st(draw, d, style, cellkind, fmt):
     cell = draw(cell_st(d, cellkind, lmin=0.5, lmax=50.0))
-    N = draw(st.integers(1, 12))
+    # N = 0 is a frame LAMMPS writes when the dumped group / threshold selection is empty at that step
+    N = draw(st.one_of(st.integers(1, 12), st.integers(1, 12), st.integers(1, 12), st.integers(0, 3)))
     ids = np.array(draw(st.permutations(range(1, N + 1))), dtype=int)
     if draw(st.integers(0, 4)) == 0:
         ids = np.arange(1, N + 1)
@@ -179,7 +180,7 @@ def compare(tag, snaps, expected, case):
         require(int(s.timestep) == e["timestep"], f"{t}: timestep {s.timestep} != {e['timestep']}")
         require(int(s.nparticle) == e["nparticle"], f"{t}: nparticle {s.nparticle} != {e['nparticle']}")
         equal(f"{t}: particle_type", s.particle_type, e["particle_type"])
-        scale = max(1.0, np.abs(e["boxbounds"]).max(), np.abs(e["positions"]).max())
+        scale = max(1.0, np.abs(e["boxbounds"]).max(), np.abs(e["positions"]).max(initial=0.0))
         atol = 4e-15 * scale * 8
         close(f"{t}: boxbounds", s.boxbounds, e["boxbounds"], rtol=1e-12, atol=atol)
         close(f"{t}: boxlength", s.boxlength, e["boxlength"], rtol=1e-12, atol=atol)
@@ -224,6 +225,8 @@ def check(case):
         tags.append("extras")
     if len({len(fr["ids"]) for fr in fr0}) > 1:
         tags.append("N-varies")
+    if any(len(fr["ids"]) == 0 for fr in fr0):
+        tags.append("empty-frame-last-only" if all(len(fr["ids"]) > 0 for fr in fr0[:-1]) else "empty-frame-not-last")
     return {"nontrivial": nontrivial, "tags": tags}
 
 
